@@ -459,6 +459,10 @@ func newConnServer(cfg connCfg) *connServer {
 		case "del":
 			ctx.Request.Header.Del("Content-Length")
 			ctx.Request.Header.Del("Transfer-Encoding")
+		case "all": // the whole request object is reset (which drops an unread body stream)
+			ctx.Request.Reset()
+		case "sbs": // the body stream is replaced by one of the handler's own
+			ctx.Request.SetBodyStream(strings.NewReader(""), 0)
 		}
 		if q.Has("rsb") { // the handler drops the request body (after reading what rb says)
 			ctx.Request.ResetBody()
